@@ -379,7 +379,9 @@ def _run_case_inner(ctx, case):
                 if only is None or k_ == only % len(signed):
                     s_.add(j)
             t = t2
-            if case.get('post_edit') and m >= 2 and min(len(s_) for s_ in signed) >= m and 'post_edit' not in flags:
+            if case.get('post_edit') and m >= 2 and min(len(s_) for s_ in signed) >= m and 'post_edit' not in flags \
+                    and not offline:
+                # (the fee-bump rounds hand the transaction over as a dictionary, which an offline signer cannot take)
                 _post_edit(ctx, case, wj, j, t, m, spk, amount, flags, wallets, signed)
             _judge(ctx, case, t, signed, m, spk, amount, 'handoff %d (%s by %d)' % (step, medium, j), flags, kf=kf)
             if step >= 1 and m < n:
